@@ -1,0 +1,207 @@
+//go:build verif && avfs_setostype
+
+package avfs
+
+// Contracts for the deductive verifier in /verif (govc): the generic lexical path functions of
+// vfs_ostype_on.go (compiled only with the build tag avfs_setostype) - C13.  Comments only.
+
+//@ pred isSep(v VFSBase, c uint8) := c == '/' || (v.OSType() == OsWindows && c == '\\')
+
+//@ func IsPathSeparator
+//@   requires vfs != nil
+//@   ensures[C13] r0 == isSep(vfs, c)
+//@   modifies nothing
+
+//@ func isSlash
+//@   pure
+//@   ensures[C13] r0 == (c == '\\' || c == '/')
+//@   modifies nothing
+
+//@ func VolumeNameLen
+//@   pure
+//@   requires vfs != nil
+//@   ensures[C13] 0 <= r0 && r0 <= len(path) && (r0 == 0 || r0 >= 2)
+//@   ensures[C13] vfs.OSType() != OsWindows ==> r0 == 0
+//@   ensures[C13] vfs.OSType() == OsWindows && len(path) >= 2 && path[1] == ':' && (('a' <= path[0] && path[0] <= 'z') || ('A' <= path[0] && path[0] <= 'Z')) ==> r0 == 2
+//@   ensures[C13] r0 == 2 ==> path[1] == ':' && (('a' <= path[0] && path[0] <= 'z') || ('A' <= path[0] && path[0] <= 'Z'))
+//@   ensures[C13] r0 > 2 ==> len(path) >= 5 && isSlash(path[0]) && isSlash(path[1]) && !isSlash(path[2]) && path[2] != '.' && (r0 == len(path) || isSlash(path[r0]))
+//@   loop 0 invariant[C13] 3 <= n && n <= l - 1 && l == len(path)
+//@   loop 1 invariant[C13] 3 <= n && n <= l && l == len(path)
+//@   modifies nothing
+
+//@ func FromSlash
+//@   requires vfs != nil
+//@   ensures[C13] len(r0) == len(path)
+//@   ensures[C13] vfs.OSType() != OsWindows ==> r0 == path
+//@   ensures[C13] vfs.OSType() == OsWindows ==> (forall i int :: 0 <= i && i < len(path) ==> r0[i] == (path[i] == '/' ? '\\' : path[i]))
+//@   modifies nothing
+
+//@ func ToSlash
+//@   requires vfs != nil
+//@   ensures[C13] len(r0) == len(path)
+//@   ensures[C13] vfs.OSType() != OsWindows ==> r0 == path
+//@   ensures[C13] vfs.OSType() == OsWindows ==> (forall i int :: 0 <= i && i < len(path) ==> r0[i] == (path[i] == '\\' ? '/' : path[i]))
+//@   modifies nothing
+
+//@ func VolumeName
+//@   requires vfs != nil
+//@   ensures[C13] len(r0) == VolumeNameLen(vfs, path) && len(r0) <= len(path) && (len(r0) == 0 || len(r0) >= 2)
+//@   ensures[C13] vfs.OSType() != OsWindows ==> r0 == ""
+//@   modifies nothing
+
+//@ func IsAbs
+//@   requires vfs != nil
+//@   ensures[C13] vfs.OSType() != OsWindows ==> r0 == hasPrefix(path, "/")
+//@   ensures[C13] vfs.OSType() == OsWindows && VolumeNameLen(vfs, path) == 0 ==> !r0
+//@   ensures[C13] vfs.OSType() == OsWindows && VolumeNameLen(vfs, path) != 0 ==> r0 == ((isSlash(path[0]) && isSlash(path[1])) || (len(path) > VolumeNameLen(vfs, path) && isSlash(path[VolumeNameLen(vfs, path)])))
+//@   modifies nothing
+
+//@ func Split
+//@   requires vfs != nil
+//@   ensures[C13] len(dir) + len(file) == len(path) && dir == substr(path, 0, len(dir)) && file == substr(path, len(dir), len(path))
+//@   ensures[C13] len(dir) >= VolumeNameLen(vfs, path) && (len(dir) == VolumeNameLen(vfs, path) || isSep(vfs, path[len(dir)-1]))
+//@   ensures[C13] forall j int :: len(dir) <= j && j < len(path) ==> !isSep(vfs, path[j])
+//@   loop 0 invariant[C13] forall j int :: i < j && j < len(path) ==> !isSep(vfs, path[j])
+//@   loop 0 invariant[C13] -1 <= i && i < len(path) && i >= len(vol) - 1
+//@   modifies nothing
+
+//@ func Base
+//@   requires vfs != nil
+//@   ensures[C13] len(r0) >= 1
+//@   loop 1 invariant[C13] -1 <= i && i < len(path)
+//@   modifies nothing
+
+//@ func (*lazybuf).index
+//@   requires 0 <= i && (b.buf != nil ==> i < len(b.buf)) && (b.buf == nil ==> i < len(b.path))
+//@   modifies nothing
+
+//@ func (*lazybuf).append
+//@   requires 0 <= b.w && b.w < len(b.path) && (b.buf != nil ==> len(b.buf) == len(b.path))
+//@   ensures[C13] b.w == old(b.w) + 1 && b.path == old(b.path) && (b.buf != nil ==> len(b.buf) == len(b.path)) && b.volLen == old(b.volLen) && b.volAndPath == old(b.volAndPath)
+//@   ensures[C13] old(b.buf) != nil ==> b.buf == old(b.buf)
+//@   ensures[C13] old(b.buf) == nil && b.buf != nil ==> fresh(b.buf)
+//@   modifies b.w, b.buf, b.buf[*]
+
+//@ func (*lazybuf).string
+//@   requires 0 <= b.w && 0 <= b.volLen && b.volLen <= len(b.volAndPath) && (b.buf == nil ==> b.volLen + b.w <= len(b.volAndPath)) && (b.buf != nil ==> b.w <= len(b.buf))
+//@   ensures[C13] len(r0) == b.volLen + b.w
+//@   modifies nothing
+
+//@ func (*lazybuf).prepend
+//@   requires 0 <= b.w && b.w <= len(b.buf)
+//@   ensures[C13] b.w == old(b.w) + len(prefix) && len(b.buf) == len(old(b.buf)) + len(prefix) && b.volLen == old(b.volLen) && b.volAndPath == old(b.volAndPath)
+//@   modifies b.w, b.buf
+
+// postClean: the decision is taken on the out.w bytes written so far, nothing beyond them.
+//@ pred colonFirst(v VFSBase, b []byte, w int) := exists i int :: 0 <= i && i < w && b[i] == ':' && (forall j int :: 0 <= j && j < i ==> !isSep(v, b[j]))
+//@ func postClean
+//@   requires vfs != nil && out != nil && 0 <= out.w && (out.buf != nil ==> out.w <= len(out.buf))
+//@   ensures[C13] out.volLen == old(out.volLen) && out.volAndPath == old(out.volAndPath) && (old(out.buf) == nil ==> out.buf == nil && out.w == old(out.w)) && (old(out.buf) != nil ==> out.buf != nil) && (out.buf != nil ==> out.w <= len(out.buf)) && out.w >= old(out.w)
+//@   ensures[C13] out.w == old(out.w) || out.w == old(out.w) + 2
+//@   ensures[C13] out.w != old(out.w) ==> old(out.volLen) == 0 && (old(colonFirst(vfs, out.buf, out.w)) || (old(out.w) >= 3 && old(isSep(vfs, out.buf[0]) && out.buf[1] == '?' && out.buf[2] == '?')))
+//@   ensures[C13] old(out.volLen == 0 && out.buf != nil && out.w >= 3 && isSep(vfs, out.buf[0]) && out.buf[1] == '?' && out.buf[2] == '?') ==> out.w == old(out.w) + 2
+//@   loop 0 invariant[C13] forall j int :: 0 <= j && j <= rangeindex && j < old(out.w) ==> old(out.buf[j]) != ':' && !isSep(vfs, old(out.buf[j]))
+//@   loop 0 invariant[C13] out.w == old(out.w) && out.buf == old(out.buf)
+//@   modifies out.w, out.buf
+
+// Clean: the cursor invariant (hand-checked in DESIGN.md 2.4): dotdot <= w <= r <= n, and the write
+// position only catches up with the read position at a separator, at the end, or at the base.
+//@ func Clean
+//@   requires vfs != nil
+//@   ensures[C13] len(r0) >= 1 && len(r0) >= VolumeNameLen(vfs, path)
+//@   loop 0 invariant[C13] n == len(path) && out.path == path && out.volLen == volLen && out.volAndPath == originalPath && len(originalPath) == volLen + n && 0 <= volLen
+//@   loop 0 invariant[C13] 0 <= dotdot && (rooted ==> 1 <= dotdot)
+//@   loop 0 invariant[C13] dotdot <= out.w
+//@   loop 0 invariant[C13] out.w <= r
+//@   loop 0 invariant[C13] r <= n
+//@   loop 0 invariant[C13] out.w == r ==> r == n || isSep(vfs, path[r]) || out.w == (rooted ? 1 : 0)
+//@   loop 0 invariant[C13] out.buf != nil ==> len(out.buf) == n
+//@   loop 0 invariant[C13] out.buf != nil ==> fresh(out.buf)
+//@   loop 1 invariant[C13] dotdot <= out.w && out.w < r && r <= n
+//@   loop 2 invariant[C13] 0 <= out.w && dotdot <= out.w && out.w <= r && r <= n
+//@   loop 2 invariant[C13] out.buf != nil ==> len(out.buf) == n
+//@   loop 2 invariant[C13] out.buf != nil ==> fresh(out.buf)
+//@   modifies nothing
+
+//@ func Dir
+//@   requires vfs != nil
+//@   loop 0 invariant[C13] -1 <= i && i < len(path) && i >= len(vol) - 1
+//@   modifies nothing
+
+//@ func Join
+//@   requires vfs != nil
+//@   modifies nothing
+
+//@ func joinPath
+//@   requires vfs != nil
+//@   modifies nothing
+
+//@ func joinWindows
+//@   requires vfs != nil
+//@   modifies nothing
+
+//@ func pathHasPrefixFold
+//@   loop 0 invariant[C13] 0 <= i && i <= len(prefix)
+//@   modifies nothing
+
+//@ func sameWord
+//@   requires vfs != nil
+//@   ensures[C13] vfs.OSType() != OsWindows ==> r0 == (a == b)
+//@   modifies nothing
+
+//@ func hasMeta
+//@   requires vfs != nil
+//@   modifies nothing
+
+//@ func cleanGlobPath
+//@   requires vfs != nil
+//@   modifies nothing
+
+//@ func cleanGlobPathWindows
+//@   requires vfs != nil
+//@   modifies nothing
+
+//@ func getEsc
+//@   requires vfs != nil
+//@   ensures[C13] r2 == nil ==> 1 <= len(r1) && len(r1) < len(chunk)
+//@   ensures[C13] r2 != nil ==> r2 == filepath.ErrBadPattern
+//@   modifies nothing
+
+//@ func scanChunk
+//@   requires vfs != nil
+//@   ensures[C13] len(r1) + len(r2) <= len(pattern)
+//@   loop 0 invariant[C13] len(pattern) <= len(old(pattern))
+//@   loop 1 invariant[C13] 0 <= i && i <= len(pattern)
+//@   modifies nothing
+
+//@ func matchChunk
+//@   requires vfs != nil
+//@   ensures[C13] len(r0) <= len(s) && (r2 != nil ==> r2 == filepath.ErrBadPattern && !r1)
+//@   loop 0 invariant[C13] len(s) <= len(old(s))
+//@   modifies nothing
+
+//@ func Match
+//@   requires vfs != nil
+//@   ensures[C13] r1 != nil ==> r1 == filepath.ErrBadPattern && !r0
+//@   loop 1 invariant[C13] 0 <= i
+//@   modifies nothing
+
+// Rel: the outer `for {}` and its first inner loop share a header block (one natural loop, ordinal 0).
+//@ func Rel
+//@   requires vfs != nil
+//@   loop 0 invariant[C13] bl == len(base) && tl == len(targ) && 0 <= b0 && b0 <= bi && bi <= bl && 0 <= t0 && t0 <= ti && ti <= tl
+//@   loop 1 invariant[C13] t0 <= ti && ti <= tl
+//@   loop 2 invariant[C13] 0 <= i && i <= seps && n == 2 + 3*i && len(buf) == size
+//@   modifies nothing
+
+//@ func SplitAbs
+//@   requires vfs != nil
+//@   loop 0 invariant[C13] -1 <= i && i < len(path) && l - 1 <= i
+//@   modifies nothing
+
+//@ func FromUnixPath
+//@   requires vfs != nil
+//@   modifies nothing
+
+//@ func Abs
+//@   requires vfs != nil
